@@ -202,6 +202,24 @@ def run_job(job, io):
         site_ord.append(ordinal[lab])
 
     buf_b, buf_a, buf_c = (array('q', [0] * len(tracked)) for _ in range(3))
+    # ---- the success path must not accumulate references either (three more fault-free executions, results dropped)
+    x = outcome(fn, scn)
+    del x
+    refs_b = refcounts(tracked, buf_b)
+    n_b = gc_count()
+    x = outcome(fn, scn)
+    del x
+    refs_a = refcounts(tracked, buf_a)
+    n_a = gc_count()
+    x = outcome(fn, scn)
+    del x
+    refs_c = refcounts(tracked, buf_c)
+    n_c = gc_count()
+    grew = [(type(o).__name__, b, a, c) for o, b, a, c in zip(tracked, refs_b, refs_a, refs_c) if a > b and c > a]
+    if grew or (n_a > n_b and n_c > n_a):
+        viol('leak', '%s@success' % opname, 'reference counts grow with every SUCCESSFUL call: objects (type, before, after 1st, after 2nd) %r; '
+             'live gc objects %d -> %d -> %d' % (grew[:6], n_b, n_a, n_c))
+    probes['success-ledger'] = 1
     for k in ks:
         label = labels[k - 1]
         exc_cls = EXC_KINDS[base_kind]
